@@ -32,6 +32,9 @@ REDUCERS = {"sum", "mean", "max", "min", "argmax", "argmin", "idxmax", "idxmin",
 NAMES = {"attrs.FREQNAME": "freq", "attrs.DIRNAME": "dir", "attrs.TIMENAME": "time", "attrs.SITENAME": "site",
          "attrs.LATNAME": "lat", "attrs.LONNAME": "lon", "attrs.PARTNAME": "part", "attrs.SPECNAME": "efth"}
 INTERP_OPTIONS = {"assume_sorted", "kwargs", "method", "maintain_m0"}
+# indexing calls: the dimensions are the keyword names (or the keys of a `**{…}` / positional dictionary)
+INDEXERS = {"isel", "sel", "drop_sel", "drop_isel", "head", "tail", "thin", "reindex", "pad"}
+INDEX_OPTIONS = {"drop", "method", "tolerance", "missing_dims", "errors", "fill_value", "copy", "axis", "mode", "constant_values"}
 COORD_ATTRS = {"freq", "dir"}
 
 # (file, predicate on the dotted function path) of what is scanned
@@ -39,7 +42,7 @@ TARGETS = [
     ("wavespectra/specarray.py", lambda p: p.startswith("SpecArray.")),
     ("wavespectra/core/xrstats.py", lambda p: True),
     ("wavespectra/partition/partition.py", lambda p: p.startswith("Partition.")),
-    ("wavespectra/core/utils.py", lambda p: p in ("regrid_spec", "smooth_spec", "unique_indices", "scaled")),
+    ("wavespectra/core/utils.py", lambda p: p in ("regrid_spec", "smooth_spec", "scaled")),
     ("wavespectra/specdataset.py", lambda p: p.startswith("SpecDataset.")),
 ]
 
@@ -143,6 +146,34 @@ class FuncScan(ast.NodeVisitor):
             vec = "vectorize" in kw and isinstance(kw["vectorize"], ast.Constant) and kw["vectorize"].value is True
             kern = ast.unparse(n.args[0]) if n.args else "?"
             self.ufuncs.append((self.path, kern, ins, outs, vec))
+        elif ftxt == "unique_indices":
+            # generic de-duplication helper: the dimension is its second argument (default "time")
+            d = resolve_dim_expr(n.args[1], self.local_consts) if len(n.args) > 1 else None
+            self.uses.append((self.path, "unique_indices", "dim" if d else "all", d or ["*"], ast.unparse(n.args[0]) if n.args else ""))
+        elif isinstance(n.func, ast.Attribute) and n.func.attr in INDEXERS and ast.unparse(n.func.value) not in ("np", "numpy"):
+            dims, ok = [], True
+            for k in n.keywords:
+                if k.arg is None:
+                    r = resolve_dim_expr(k.value, self.local_consts)
+                    ok = ok and r is not None
+                    dims += r or []
+                elif k.arg == "dim":
+                    r = resolve_dim_expr(k.value, self.local_consts)
+                    ok = ok and r is not None
+                    dims += r or []
+                elif k.arg not in INDEX_OPTIONS:
+                    dims.append(k.arg)
+            for a in n.args:
+                r = resolve_dim_expr(a, self.local_consts)
+                ok = ok and r is not None
+                dims += r or []
+            rtxt = ast.unparse(n.func.value)
+            if ok and dims:
+                self.uses.append((self.path, n.func.attr, "dim", dims, rtxt))
+            elif is_coord_expr(n.func.value, self.coord_locals):
+                self.uses.append((self.path, n.func.attr, "coord", [], rtxt))
+            else:
+                self.uses.append((self.path, n.func.attr, "all", ["*"], rtxt))
         elif isinstance(n.func, ast.Attribute) and n.func.attr in REDUCERS:
             recv = n.func.value
             rtxt = ast.unparse(recv)
